@@ -6462,8 +6462,13 @@ impl Nudge {
         let exact = (truncated.get() as f64)
             + (numer / denom) * (sign.get() as f64) * (increment.get() as f64);
         let rounded = mode.round_float(exact, increment);
+        // N.B. `f64::signum` returns `1.0` for `0.0`, so an exact multiple
+        // (where rounding changes nothing) must be handled explicitly.
+        // Otherwise, a positive span that is already a multiple of the
+        // increment would be treated as if it grew.
+        let diff = (rounded.get() as f64) - exact;
         let grew_big_unit =
-            ((rounded.get() as f64) - exact).signum() == (sign.get() as f64);
+            diff != 0.0 && diff.signum() == (sign.get() as f64);
 
         let span = span
             .try_units_ranged(smallest, rounded.rinto())
